@@ -196,6 +196,14 @@ func ValidateUpdate(n *UpdateStatement) Object {
 			continue
 		}
 
+		// the operand of ADD and DELETE is a value, not something to compute: "ADD n :one + :one",
+		// "ADD n if_not_exists(m, :one)" are no sentences of the update grammar
+		if action.Token.Type == ADD || action.Token.Type == DELETE {
+			if _, ok := action.Right.(*Identifier); !ok {
+				return newError("syntax error; the operand of %s must be a value: %s", action.Token.Literal, expressionString(action.Right))
+			}
+		}
+
 		if errObj := validateUpdateOperand(action.Right); isError(errObj) {
 			return errObj
 		}
